@@ -19,8 +19,13 @@ struct St {
 
 /// any wf state with exactly `n` (a CONCRETE number, 0..=2) cached ids
 fn any_state(n: usize, now: (u64, u32), ttl: Duration) -> St {
-    let mut c: DuplicateCache<u8> = DuplicateCache::new(ttl);
-    c.0.list = VecDeque::with_capacity(4);
+    // built field by field: assigning a pre-sized VecDeque over the one made by new() drops
+    // the empty one, which Kani 0.68 reports as a bogus dealloc failure
+    let mut c: DuplicateCache<u8> = DuplicateCache(TimeCache {
+        map: FnvHashMap::default(),
+        list: VecDeque::with_capacity(4),
+        ttl,
+    });
     let k: [u8; 2] = kani::any();
     kani::assume(k[0] != k[1]);
     let mut e = [(0u64, 0u32); 2];
